@@ -42,3 +42,18 @@ instance : RealLike Float where
   pi := 3.141592653589793
   decLt := fun a b => Float.decLt a b
   decLe := fun a b => Float.decLe a b
+
+/-- single precision, used for the pieces numpy carries out in float32 (PI-channel energies, C09/C13): a Python float
+literal is first a double and is then cast to float32, hence the double rounding in `OfScientific` -/
+instance : RealLike Float32 where
+  sqrt := Float32.sqrt
+  sin := Float32.sin
+  cos := Float32.cos
+  exp := Float32.exp
+  log := Float32.log
+  floor := Float32.floor
+  atan2 := Float32.atan2
+  pi := (3.141592653589793 : Float).toFloat32
+  ofScientific := fun m s e => (OfScientific.ofScientific m s e : Float).toFloat32
+  decLt := fun a b => Float32.decLt a b
+  decLe := fun a b => Float32.decLe a b
